@@ -232,6 +232,7 @@ def main():
             i = args.index(name); v = args[i + 1]; del args[i:i + 2]; return v
         return default
     jobs = int(opt('--jobs', '6')); limit = int(opt('--limit', '0')); only = opt('--fn', None); seed = int(opt('--seed', '1'))
+    kinds = opt('--kinds', None)
     out_path = opt('--out', os.path.join(ROOT, 'benign', 'SWEEP.json'))
     cands = []
     seen = set()
@@ -249,6 +250,8 @@ def main():
                 continue
             seen.add(key)
             cands.append((file, fn, unit, props, kind, edits))
+    if kinds:
+        cands = [c for c in cands if any(c[4].startswith(k) for k in kinds.split(','))]
     random.Random(seed).shuffle(cands)
     if limit:
         cands = cands[:limit]
